@@ -221,6 +221,14 @@ let handle (r : reader) : unit =
       let l = next_ranges r in
       out_s "OK";
       out_ranges (scale k l)
+  | "FITSROWS" ->
+      (* FITSROWS w ranges -> hex of the data part *)
+      let w = next_int r in
+      let l = next_ranges r in
+      let rec nat_of_int i = if i <= 0 then O else S (nat_of_int (i - 1)) in
+      let bytes = encode_rows (nat_of_int (w / 8)) l in
+      out_s "OK ";
+      List.iter (fun b -> Buffer.add_string buf (Printf.sprintf "%02x" (int_of_n b))) bytes
   | "EXPR" ->
       let q = next_qty r in
       let w = next_n r in
